@@ -508,6 +508,10 @@ impl C04 {
                     terms.push((*id, small_coef(rng)));
                 }
             }
+            // a previously fixed variable (substituted_value, not in the state) may feed a dependency
+            if rng.chance(1, 3) {
+                terms.push((3, small_coef(rng)));
+            }
             for (a, b) in &edges {
                 if *a == i {
                     terms.push((dep_id(*b), small_coef(rng)));
@@ -532,11 +536,17 @@ impl C04 {
         for i in 0..n {
             inst.decision_variables.push(dvar(dep_id(i), KIND_CONTINUOUS, None));
         }
+        let mut fixed = dvar(3, KIND_INTEGER, Some((-3.0, 3.0)));
+        let fixed_value = rng.range(-3, 3) as f64;
+        fixed.substituted_value = Some(fixed_value);
+        inst.decision_variables.push(fixed);
         inst.decision_variables.push(dvar(50, KIND_CONTINUOUS, Some((1.0, 2.0)))); // never given a value
         inst.objective = Some(f_linear(linear(vec![(0, 1.0)], 0.0)));
         inst.sense = SENSE_MIN;
         let st: BTreeMap<u64, f64> = indep.iter().map(|i| (*i, rng.range(-3, 3) as f64)).collect();
-        let reference = ref_dependencies(&deps, &st);
+        let mut with_fixed = st.clone();
+        with_fixed.insert(3, fixed_value);
+        let reference = ref_dependencies(&deps, &with_fixed);
         let acyclic = reference.is_ok();
         mon.facet(&format!("graph/n={n}/{}", if acyclic { "acyclic" } else if dangling { "dangling-or-cyclic" } else { "cyclic" }));
         let mut fp = Fp::new();
